@@ -1,5 +1,5 @@
 import os
-from vlib import core
+from vlib import core, e1
 
 WRAPS = ['epoll_wait', 'epoll_ctl', 'timerfd_create', 'timerfd_settime', 'syslog', 'openlog']
 
@@ -21,13 +21,30 @@ def run(tier):
                        'one event-loop thread; registrations made on the owning thread']
     b = _build()
     core.run_sharded(rep, b, tier, extra_args=['--depth', str(depth)], hang_s=120)
+    # schedule dimension: registrations driven from outside the owning thread (engine E1)
+    b1 = e1.build('C06', 'h_c06_e1', ['harness/C06/h_c06_e1.c'])
+    bp = 2 if tier == 'quick' else 3
+    e1.run_jobs(rep, b1, [('outside/dispatch', bp, 2), ('outside/oneshot', bp, 2), ('outside/persistent-drain', bp, 2)], tier,
+                job_deadline_s=(300 if tier == 'quick' else 1500))
     h = rep.stats.get('history', {})
     rep.extra['states'] = int(h.get('run', 0))
     rep.extra['transitions'] = int(rep.total('run'))
     rep.extra['traces_validated_against_impl'] = int(h.get('run', 0))
     rep.extra['history_depth_bound'] = depth
     rep.extra['explanation'] = 'states = distinct histories executed on the real loop (each is a trace of the implementation); transitions = cases executed incl. grids'
-    rep.finish(core.make_replayer(lambda cfg: b, tier, extra_args=['--depth', str(depth)]))
+    r_e2 = core.make_replayer(lambda cfg: b, tier, extra_args=['--depth', str(depth)])
+
+    def replayer(target, clause, idx, config):
+        if target.startswith('outside/'):
+            import subprocess
+            hits = 0
+            for _ in range(2):
+                p = subprocess.run([b1, '--scenario', target, '--replay', idx], capture_output=True, timeout=300)
+                hits += any(l.split('\t')[:3] == ['VIOL', target, clause] for l in p.stdout.decode('utf-8', 'replace').splitlines())
+            return hits == 2
+        return r_e2(target, clause, idx, config)
+    rep.extra['e1_executions'] = int(sum(rep.stats.get(t, {}).get('run', 0) for t in ('outside/dispatch', 'outside/oneshot', 'outside/persistent-drain')))
+    rep.finish(replayer)
 
 
 def replay(r, tier):
